@@ -25,7 +25,7 @@ def _consts(nt, nd):
             "Dyns": "{%s}" % ",".join(str(i) for i in range(nd))}
 
 
-def world_mc(ctx, prop, steps, view, emit_from=None, shapes="ShapesSmall", meta="MetaAll", guards=3,
+def world_mc(ctx, prop, steps, view, emit_from=None, shapes="ShapesSmall", meta="MetaAll", guards=3, phase=0,
              simulate=None, label="", workers=8, timeout=3000):
     """One TLC run on MCWorld.  view: MCView2 = abstract state + depth (exhaustive for the state
     invariants and the action rules, which TLC evaluates on every generated transition);
@@ -34,7 +34,7 @@ def world_mc(ctx, prop, steps, view, emit_from=None, shapes="ShapesSmall", meta=
     invs, props = MC_INV[prop]
     invs = list(invs) + (["Emit"] if emit_from is not None else [])
     consts = dict(_consts(2, 2))
-    consts.update({"MaxGuards": guards, "Payloads": "{1}", "WPayloads": "{2}", "MaxSteps": steps,
+    consts.update({"MaxGuards": guards, "Phase": phase, "Payloads": "{1}", "WPayloads": "{2}", "MaxSteps": steps,
                    "EmitFrom": emit_from if emit_from is not None else steps + 1})
     extra = ["VIEW " + view, "CONSTANT Shapes <- %s" % shapes, "CONSTANT SetupShapes <- %s" % shapes,
              "CONSTANT MetaTys <- %s" % meta]
